@@ -1,0 +1,38 @@
+//go:build verif
+
+package transport
+
+// Contracts for the gvc verifier (/verif). Comment-only; never compiled into
+// a normal build.
+
+//gvc:func referenceExists
+//gvc:  props C39
+//gvc:  theory int
+//gvc:  results exists err
+//gvc:  ensures yes: err == nil && exists ==> s.#refs[strid(n)] != 0
+//gvc:  ensures no: err == nil && !exists ==> s.#refs[strid(n)] == 0
+//gvc:  ensures flag: err != nil ==> !exists
+//gvc:end
+
+//gvc:func setStatus
+//gvc:  props C39
+//gvc:  theory int
+//gvc:  modifies map:has, map:val:error, *firstErr
+//gvc:  requires fe: firstErr != nil
+//gvc:  ensures recorded: has(cmdStatus, ref)
+//gvc:end
+
+// updateReferences (property C39): a reference is created only when it does
+// not exist, and updated or deleted only when its current value equals the
+// old value the client sent.
+//gvc:func updateReferences
+//gvc:  props C39
+//gvc:  theory int
+//gvc:  modifies map:has, map:val:error, *firstErr, st.#refs
+//gvc:  requires nn: st != nil && req != nil && firstErr != nil
+//gvc:  requires cmds: forall(a, 0, len(req.Commands), req.Commands[a] != nil)
+//gvc:  loop 1 invariant nn: firstErr != nil
+//gvc:  sink SetReference requires cas: ite(forall(k, 0, 32, cmd.Old.hash[k] == 0), st.#refs[strid(cmd.Name)] == 0, st.#refs[strid(cmd.Name)] != 0 && forall(k, 0, 32, field(st.#refs[strid(cmd.Name)], "plumbing.Reference.h").hash[k] == cmd.Old.hash[k]))
+//gvc:  sink SetReference requires name: strid(ref.n) == strid(cmd.Name) && ref.h == cmd.New
+//gvc:  sink RemoveReference requires cas: st.#refs[strid(cmd.Name)] != 0 && forall(k, 0, 32, field(st.#refs[strid(cmd.Name)], "plumbing.Reference.h").hash[k] == cmd.Old.hash[k])
+//gvc:end
